@@ -1,4 +1,5 @@
 import SpoxModel.Lemmas.Types
+import SpoxModel.Model.TypesGlue
 /-! Helper lemmas for C13, round 10: the converse of `broadcast_raises_only_if_impossible` — whenever the
     static broadcast succeeds there ARE conforming runtime shapes that numpy broadcasts (witness
     construction, any ranks), and the tightness of the claimed dimensions. -/
@@ -99,5 +100,105 @@ theorem broadcast_possible (a b c : Shape) (h : broadcast a b = some c) :
         have h2 : max sa.length sb.length - sa.length = xb.length - xa.length := by omega
         simp only [npBroadcast, h1, h2, List.replicate_zero, List.nil_append]
         exact hs
+
+end Types
+
+/-! ### Round 10: dimension-wise characterisation of `Shape.broadcast`, counted from the right -/
+namespace Types
+
+theorem rdim_pad (k : Nat) (a : List Natural) (i : Nat) :
+    rdim (List.replicate k (.const 1) ++ a) i = rdim a i := by
+  simp only [rdim, List.reverse_append, List.reverse_replicate]
+  by_cases h : i < a.reverse.length
+  · rw [List.getElem?_append_left h]
+  · rw [List.getElem?_append_right (by omega)]
+    have h2 : a.reverse[i]? = none := List.getElem?_eq_none (by omega)
+    rw [h2]
+    simp only [List.getElem?_replicate]
+    split <;> simp
+
+theorem bZip_getElem : (xs ys zs : List Natural) → xs.length = ys.length → bZip xs ys = some zs →
+    zs.length = xs.length ∧
+      ∀ (i : Nat) (x y : Natural), xs[i]? = some x → ys[i]? = some y → ∃ z, zs[i]? = some z ∧ bElem x y = some z
+  | [], [], zs, _, h => by
+    simp [bZip] at h; subst h; simp
+  | [], _ :: _, _, hl, _ => by simp at hl
+  | _ :: _, [], _, hl, _ => by simp at hl
+  | x :: xs, y :: ys, zs, hl, h => by
+    simp only [List.length_cons, Nat.add_right_cancel_iff] at hl
+    simp only [bZip] at h
+    cases hxy : bElem x y with
+    | none => simp [hxy] at h
+    | some z =>
+      simp only [hxy, Option.map_eq_some_iff] at h
+      obtain ⟨zs', hzs, rfl⟩ := h
+      obtain ⟨hlen, hi⟩ := bZip_getElem xs ys zs' hl hzs
+      refine ⟨by simp [hlen], ?_⟩
+      intro i x' y' hx hy
+      cases i with
+      | zero =>
+        simp only [List.getElem?_cons_zero, Option.some.injEq] at hx hy
+        subst hx; subst hy
+        exact ⟨z, by simp, hxy⟩
+      | succ j =>
+        simp only [List.getElem?_cons_succ] at hx hy ⊢
+        exact hi j x' y' hx hy
+
+theorem bZip_rdim (xs ys zs : List Natural) (hl : xs.length = ys.length) (h : bZip xs ys = some zs) (i : Nat) :
+    bElem (rdim xs i) (rdim ys i) = some (rdim zs i) := by
+  obtain ⟨hlen, hi⟩ := bZip_getElem xs ys zs hl h
+  simp only [rdim]
+  by_cases hlt : i < xs.length
+  · have hx : xs.reverse[i]? = xs[xs.length - 1 - i]? := List.getElem?_reverse hlt
+    have hy : ys.reverse[i]? = ys[ys.length - 1 - i]? := List.getElem?_reverse (by omega)
+    have hz : zs.reverse[i]? = zs[zs.length - 1 - i]? := List.getElem?_reverse (by omega)
+    have hxi : xs.length - 1 - i < xs.length := by omega
+    have hyi : xs.length - 1 - i < ys.length := by omega
+    obtain ⟨z, hz', hb⟩ := hi (xs.length - 1 - i) xs[xs.length - 1 - i] ys[xs.length - 1 - i]
+      (List.getElem?_eq_getElem hxi) (List.getElem?_eq_getElem hyi)
+    rw [hx, hy, hz, hlen, ← hl, hz', List.getElem?_eq_getElem hxi, List.getElem?_eq_getElem hyi]
+    simpa using hb
+  · have hx : xs.reverse[i]? = none := List.getElem?_eq_none (by simp; omega)
+    have hy : ys.reverse[i]? = none := List.getElem?_eq_none (by simp; omega)
+    have hz : zs.reverse[i]? = none := List.getElem?_eq_none (by simp; omega)
+    rw [hx, hy, hz]; simp [bElem]
+
+/-- `Shape.broadcast` on shapes of known rank, dimension by dimension from the right: the rank is the larger
+    rank and dimension `-1-i` of the result is `_broadcast_elem` of the operands' dimensions `-1-i`
+    (a missing axis counts as 1). -/
+theorem broadcast_dimwise (a b c : List Natural) (h : broadcast (some a) (some b) = some (some c)) :
+    c.length = max a.length b.length ∧ ∀ i, bElem (rdim a i) (rdim b i) = some (rdim c i) := by
+  simp only [broadcast] at h
+  by_cases hgt : a.length > b.length
+  · simp only [hgt, if_true, Option.map_eq_some_iff, Option.some.injEq] at h
+    obtain ⟨zc, hz, rfl⟩ := h
+    have hl : (List.replicate (a.length - b.length) (Natural.const 1) ++ b).length = a.length := by
+      simp only [List.length_append, List.length_replicate]; omega
+    obtain ⟨hlen, _⟩ := bZip_getElem _ _ _ hl hz
+    refine ⟨by rw [hlen, hl]; omega, fun i => ?_⟩
+    have := bZip_rdim _ _ _ hl hz i
+    rw [rdim_pad, bElem_comm] at this
+    exact this
+  · simp only [hgt, if_false, Option.map_eq_some_iff, Option.some.injEq] at h
+    obtain ⟨zc, hz, rfl⟩ := h
+    have hl : (List.replicate (b.length - a.length) (Natural.const 1) ++ a).length = b.length := by
+      simp only [List.length_append, List.length_replicate]; omega
+    obtain ⟨hlen, _⟩ := bZip_getElem _ _ _ hl hz
+    refine ⟨by rw [hlen, hl]; omega, fun i => ?_⟩
+    have := bZip_rdim _ _ _ hl hz i
+    rw [rdim_pad] at this
+    exact this
+
+/-- `rdim` is the real `__getitem__` with the negative index `-1-i` wherever that axis exists -/
+theorem rdim_getItem (l : List Natural) (i : Nat) (h : i < l.length) :
+    Shape.getItem (some l) (-1 - (i : Int)) = some (rdim l i) := by
+  have hneg : ¬ (0 : Int) ≤ -1 - (i : Int) := by omega
+  have habs : (-1 - (i : Int)).natAbs = i + 1 := by omega
+  simp only [Shape.getItem, hneg, if_false, habs, rdim]
+  have hle : i + 1 ≤ l.length := by omega
+  rw [if_pos hle, List.getElem?_reverse h]
+  have : l.length - (i + 1) = l.length - 1 - i := by omega
+  rw [this, List.getElem?_eq_getElem (by omega)]
+  simp
 
 end Types
